@@ -568,7 +568,8 @@ def forced_names(dctx):
     for td in dctx["typedefs"]:
         t = td["t"]
         core = [s for s in t["specs"] if s not in G.QUALS]
-        if t["decl"] == G.empty_decl() and len(core) == 1 and isinstance(core[0], list) and core[0][0] != "name":
+        if t["decl"] == G.empty_decl() and len(core) == 1 and isinstance(core[0], list) \
+                and core[0][0] in ("struct", "union"):       # enums defined earlier are never renamed
             key = (core[0][0], core[0][1])
             if key not in seen:
                 seen.add(key)
